@@ -26,9 +26,11 @@ TermPaths(a, b) ==
 
 (* What the crate actually does (named deviation from the documented "shortest path"): when one  *)
 (* term is an ancestor of the other, path_to_term walks the lineage (a shortest UPWARD path), even  *)
-(* if going up to a higher common ancestor and down again would be shorter.  On graphs with at     *)
-(* most 4 terms both notions coincide (TLC: LineageAgreesSmall); from 5 terms on they can differ    *)
-(* (chain 5-4-3-2-1 plus the shortcut 5-1: path_to_term(5, 2) has 3 steps, the distance is 2).     *)
+(* if going up to a higher common ancestor and down again would be as short or shorter.  On graphs  *)
+(* with at most 3 terms both notions coincide (TLC: LineageAgreesSmall holds in MC_Extras3); with 4 *)
+(* terms the allowed sets already differ (TLC refutes LineageAgreesSmall on 4 ids), and from 5 on   *)
+(* the lineage path can be strictly longer than the distance (chain 5-4-3-2-1 plus the shortcut     *)
+(* 5-1: path_to_term(5, 2) has 3 steps, the distance is 2).                                         *)
 TermPathsLineage(a, b) ==
   IF a = b THEN {<<b>>}
   ELSE IF b \in Anc(parents, a) THEN UpPaths(a, b)
